@@ -63,6 +63,37 @@ def _c14_chunk(args):
     return out
 
 
+def _c14_limit_case(seed):
+    """Level-limited architectures built from the same tree under the three renamings: module sets and verdicts agree up to the renaming."""
+    rng = random.Random(seed)
+    mods = ["r", "r.a", "r.a.x", "r.a.x.p", "r.a.y", "r.ab", "r.ab.y", "r.ab.y.p", "r.b", "r.b.x", "r.c", "r.c.x", "r.d"]
+    cand = [m for m in mods if "." in m]
+    imports = [tuple(rng.sample(cand, 2)) for _ in range(rng.randint(2, 7))]
+    imports = [(a, c) for a, c in imports if not a.startswith(c + ".") and not c.startswith(a + ".")]
+    order = list(mods)
+    rng.shuffle(order)
+    res = {}
+    for nm, rho0 in (("free", RHO_FREE), ("adv", RHO_ADV), ("adv2", RHO_ADV2)):
+        rho = dict(rho0)
+        arch = build_arch([rename(m, rho) for m in order], [(rename(a, rho), rename(c, rho)) for a, c in imports], level_limit=1)
+        inv = {rename(m, rho): m for m in mods}
+        got_mods = sorted(inv.get(m, "?" + m) for m in arch.modules)
+        verdicts = []
+        top = [m for m in mods if m.count(".") == 1]
+        for s_ in top:
+            for o_ in top:
+                if s_ != o_:
+                    for verb in ("should", "should_not"):
+                        k, msg = outcome(make_rule([("name", rename(s_, rho))], verb, True, False, [("name", rename(o_, rho))]), arch)
+                        verdicts.append(_norm(k, msg, rho, mods))
+        res[nm] = (got_mods, verdicts)
+    if not (res["free"] == res["adv"] == res["adv2"]):
+        d = [n for n in ("adv", "adv2") if res[n] != res["free"]]
+        return [dict(case="renaming-level-limit", detail=f"level_limit=1: modules / verdicts differ under renaming {d}: modules free={res['free'][0]} vs {res[d[0]][0]}",
+                     input=dict(kind="c14-limit", seed=seed))]
+    return []
+
+
 def bounded_renaming(tier, seed):
     from .common import import_relations
     b = Bounded("C14.verdicts-and-messages-invariant-under-component-renaming",
@@ -80,10 +111,17 @@ def bounded_renaming(tier, seed):
         for i in range(0, len(rels), size):
             jobs.append((tree, rels[i:i + size], rng.randrange(1 << 30), 3 if tier == "quick" else 8))
     _merge(b, pmap(_c14_chunk, jobs))
+    for res in pmap(_c14_limit_case, [seed * 1009 + i for i in range(60 if tier == "quick" else 600)]):
+        b.case()
+        for v in res:
+            b.violation(v["case"], v["detail"], v["input"])
     return b.result()
 
 
 def rerun_renaming(inp):
+    if inp.get("kind") == "c14-limit":
+        res = _c14_limit_case(inp["seed"])
+        return (not res), ("; ".join(v["detail"] for v in res) or "invariant under the renamings")
     mods = TREES[inp["tree"]]
     imports = [tuple(p) for p in inp["imports"]]
     S, O = [tuple(x) for x in inp["S"]], [tuple(x) for x in inp["O"]]
